@@ -3,7 +3,7 @@ C19 — naken_util memory commands address the same bytes as loader and simulato
 
 Property theorems only (lemmas: `Util/Proofs*.lean`, `Memory/Proofs.lean`).  The model (`Util/Impl.lean`,
 `Util/Session.lean`) mirrors core/UtilContext.cpp and the command loop of main/naken_util.cpp as of the `fix:`
-commits C19-1 … C19-8; the specification side (`Util/Spec.lean`) is written from the property text: numerals and
+commits C19-1 … C19-9; the specification side (`Util/Spec.lean`) is written from the property text: numerals and
 their values, the byte sequence of a datum in the CPU's byte order, the listing of a range.
 
 No theorem bounds the number of digits of a numeral, the number of data of a write, an address or a value.  The
@@ -11,6 +11,8 @@ hypotheses that do occur are the ones the statement itself needs: "the written r
 space" (otherwise later data overwrite earlier ones) and "no symbol is spelled like the number".
 -/
 import NakenVerif.Util.ProofsSession
+import NakenVerif.Generated.UtilCommands
+import NakenVerif.Generated.CpuList
 
 namespace NakenVerif.Util.C19
 open NakenVerif.Memory NakenVerif.Util NakenVerif.Util.Spec
@@ -280,6 +282,18 @@ theorem bin_load_places (m : Memory) (a : BitVec 32) (bs : List (BitVec 8)) (i :
     (hfit : bs.length ≤ 4294967296) : read8 (readBin m a bs) (a + BitVec.ofNat 32 i) = bs[i] :=
   readBin_places m a bs i hi hfit
 
+/-! ## regenerated data the statements above rest on -/
+
+/-- The command table of the session model is `command_names[]` of main/naken_util.cpp as regenerated on this run. -/
+theorem command_table_matches : commandTable = Generated.utilCommands := by decide
+
+/-- Every CPU of the regenerated cpu_list has a positive bytes_per_address (the hypothesis of
+`print_range_inclusive` and `address_units_roundtrip`), and the MSP430 is little endian with one byte per address
+(the hypothesis of `sim_fetch_agrees`). -/
+theorem cpu_list_units : (∀ c ∈ Generated.cpuList, 0 < c.bytesPerAddress ∧ c.bytesPerAddress ≤ 8) ∧
+    (∀ c ∈ Generated.cpuList, c.name = "msp430" → c.bigEndian = false ∧ c.bytesPerAddress = 1) := by
+  decide
+
 /-! ## findings left in the code (known_findings.json), on concrete witnesses -/
 
 /-- FINDING asm-gap-zero-filled: `assemble_code` copies every address between the lowest and the highest byte of
@@ -323,5 +337,23 @@ theorem print_top_byte_counterexample (m : Memory) :
   have hb : printBound 1 0xfffffffe#32 0xffffffff#32 = 0xffffffff#32 := by decide
   rw [hb, print_loop_is_listing .w8 m 1 _ _ (by decide)]
   simp [listing, nbytes, perRow, vals, loadVal]
+
+/-- FINDING low-address-sentinel: `low_address == 0xffffffff` means "nothing loaded", so an image whose only byte is
+at 0xffffffff is not disassembled by `disasm` without a range. -/
+theorem disasm_all_top_sentinel_counterexample (v : BitVec 8) :
+    let cx : Ctx := { mem := write8 Memory.init 0xffffffff#32 v, bpa := 1, alignment := 1, lookup := fun _ => none }
+    read8 cx.mem 0xffffffff#32 = v ∧ cmdDisasmAll cx = [] := by
+  intro cx
+  constructor
+  · simp [cx, read8_write8]
+  · have hl : cx.mem.lowAddress = 0xffffffff#32 := by
+      simp [cx, write8_low, Memory.init, Generated.memoryInitLow]
+    simp [cmdDisasmAll, hl]
+
+/-- an int32 needs 4 byte alignment at most, whatever the CPU's instruction alignment is (fix C19-9) -/
+theorem write32_alignment_at_most_4 (alignment address : BitVec 32) (h : address &&& 3 = 0) :
+    misaligned .w32 alignment address = false := by
+  have : address &&& ((alignment - 1) &&& 3) = 0 := by bv_decide
+  simp only [misaligned, this, ne_eq, not_true_eq_false, decide_false]
 
 end NakenVerif.Util.C19
